@@ -111,7 +111,7 @@ func loadProgram(repoDir, harnessDir string) (*Program, error) {
 				progress = true
 			}
 		}
-		if !progress || attempt > 6 {
+		if !progress || attempt > 12 {
 			return p, fmt.Errorf("package errors: %s", strings.Join(p.loadErrs, "; "))
 		}
 	}
